@@ -27,8 +27,8 @@ import c20_gen as G
 META = {
     "category": "proof",
     "technique": "Coq model of the selector and of the wake-up protocol; invariants; differential runs on synthetic trees; trace acceptance of real threaded runs",
-    "text": "Coq theorems (Stall/Props_C20.v, closed under the global context) over an executable model of lsmtk's compaction selector (compute_bounds with its fixed-point loop and a proved fuel bound, trivial moves, find_best_compaction with saturating i64 scores and the byte/file limits, expand_compaction, may_choose_compaction, next_compaction with the mandatory logic and exact-rational level_factor) and over a transition system of the stall/compact condition variables: no wake-up is lost on either variable for every interleaving of client ingests and 1..K compaction threads; the store threads all wait on one another exactly when ingest is stalled, nothing is ongoing and the selector returns nothing, and that state is permanent; the selector returns a compaction in every stalled state outside the known class K-stall for every usize option setting (inside the class the statement is refuted and the deadlock is shown reachable); every choice of the selector is admissible (Lsm valid_compactionb, incl. the expanded candidates) and respects ongoing compactions; the selector never panics and its loop terminates on well-formed trees. The models are tied to the code by 3-way differential runs on generated trees (real next_compaction vs extracted model vs Python oracles), an exhaustive small-scope class search, and real multi-threaded store sessions whose critical-section traces are replayed on the model with an exact all-parked watchdog. F15 (README stall) was repaired in /repo (0634ccd).",
-    "note": "Liveness is proved in its safety form (no lost wake-up + stall_relievable + permanence of stuck states); not proved: that every sequence of compactions from a stalled state reaches an unstalled one (termination measure), scheduler/Mutex/Condvar fairness. Trusted: Coq kernel; extraction + ocaml/stall driver; harness c20 and the cfg(blue_verif) hooks verif_select / verif_parked / trace (critical sections of the compaction mutex are taken to be atomic); Rust Mutex/Condvar semantics; float tables compared with Rust on every run, cases within 2^-20 of an integer or |score| >= 2^32 counted as float-risk. Class K-stall: level 0 empty under a zero stall threshold; max_open_files <= |L0| + |L1 overlap| (or, when the mandatory condition does not hold under a stall, <= the number of files in the tree).",
+    "text": "Coq theorems (Stall/Props_C20.v, closed under the global context) over an executable model of lsmtk's compaction selector (compute_bounds with its fixed-point loop and a proved fuel bound, trivial moves, find_best_compaction with saturating i64 scores and the byte/file limits, expand_compaction, may_choose_compaction, next_compaction with the mandatory logic and exact-rational level_factor) and over a transition system of the stall/compact condition variables: no wake-up is lost on either variable for every interleaving of client ingests and 1..K compaction threads; the store threads all wait on one another exactly when ingest is stalled, nothing is ongoing and the selector returns nothing, and that state is permanent; the selector returns a compaction in every stalled state outside the known class K-stall for every usize option setting (inside the class the statement is refuted and the deadlock is shown reachable); every choice of the selector is admissible (Lsm valid_compactionb, incl. the expanded candidates) and respects ongoing compactions; the selector never panics and its loop terminates on well-formed trees; every compaction it picks lowers a measure of the tree, so a run of select-and-apply steps between two ingests has at most mu(v) steps. The models are tied to the code by 3-way differential runs on generated trees (real next_compaction vs extracted model vs Python oracles), an exhaustive small-scope class search, and real multi-threaded store sessions whose critical-section traces are replayed on the model with an exact all-parked watchdog. F15 (README stall) was repaired in /repo (0634ccd).",
+    "note": "Liveness is proved in its safety form (no lost wake-up + stall_relievable + permanence of stuck states + a termination measure for sequential select-and-apply runs); not proved: the measure argument for a compaction selected on one version and applied to a later one (several compaction threads), scheduler/Mutex/Condvar fairness. Trusted: Coq kernel; extraction + ocaml/stall driver; harness c20 and the cfg(blue_verif) hooks verif_select / verif_parked / trace (critical sections of the compaction mutex are taken to be atomic); Rust Mutex/Condvar semantics; float tables compared with Rust on every run, cases within 2^-20 of an integer or |score| >= 2^32 counted as float-risk. Class K-stall: level 0 empty under a zero stall threshold; max_open_files <= |L0| + |L1 overlap| (or, when the mandatory condition does not hold under a stall, <= the number of files in the tree).",
 }
 
 PROPS = "theories/Stall/Props_C20.v"
@@ -675,8 +675,6 @@ def run(chk):
                         small_tally["stuck_by_class"][kn] = small_tally["stuck_by_class"].get(kn, 0) + 1
             elif kn is not None and tag == "small":
                 small_tally["known_not_stuck"] += 1
-            if ch is not None and mi.get("safe") == "1" and False:
-                pass
 
     # ---- threaded sessions
     t0 = time.time()
